@@ -543,6 +543,8 @@ def find_impl_fn(eng, trait, self_adt_name, item, arg_pred=None):
 def try_into(eng, st, site, func, target, args, dty):
     ga = [a for a in target.get("args", func.get("args", [])) if isinstance(a, int)]
     if len(ga) < 2:
+        ga = [a for a in func.get("args", []) if isinstance(a, int)]
+    if len(ga) < 2:
         return None
     T, U = eng.T(ga[0]), eng.T(ga[1])
     if target["name"].endswith("try_from"):
@@ -587,6 +589,9 @@ def try_into(eng, st, site, func, target, args, dty):
 @stub(r"std::convert::Into<U>>::into$|^std::convert::Into::into$|^std::convert::From::from$|<T as std::convert::From<T>>::from$")
 def into_stub(eng, st, site, func, target, args, dty):
     ga = [a for a in target.get("args", func.get("args", [])) if isinstance(a, int)]
+    if len(ga) < 2:
+        # resolved to a non-generic impl (e.g. `impl From<u8> for u16`): the trait-level call carries [Self, T]
+        ga = [a for a in func.get("args", []) if isinstance(a, int)]
     if target["name"].endswith("<T as std::convert::From<T>>::from"):
         return [(st, args[0])]
     if len(ga) < 2:
@@ -620,7 +625,7 @@ def borrow_stub(eng, st, site, func, target, args, dty):
 
 
 @stub(r"std::borrow::ToOwned for \[T\]>::to_owned$|std::borrow::ToOwned for str>::to_owned$|^std::borrow::ToOwned::to_owned$|"
-      r"^core::slice::<impl \[T\]>::to_vec$|^std::string::String::from_utf8_unchecked$|::to_string$")
+      r"^(core|std|alloc)::slice::<impl \[T\]>::to_vec$|^std::vec::Vec::<T>::from$|<std::vec::Vec<T> as std::convert::From<&\[T\]>>::from$|^std::string::String::from_utf8_unchecked$|::to_string$")
 def to_owned_stub(eng, st, site, func, target, args, dty):
     s = as_slice(eng, st, args[0])
     if s is None:
@@ -877,8 +882,20 @@ def iter_zip(eng, st, site, func, target, args, dty):
     a, b = args[0], args[1]
     if isinstance(b, VArr):
         b = VIter("array", b.elems, 0, b.name)
+    if not isinstance(b, VIter):
+        # the second operand is any IntoIterator: &[T; N], &[T], &Vec<T>
+        sb = as_slice(eng, st, b)
+        if sb is not None:
+            b = VIter("slice", sb.len, Lin.const(0), sb)
     if isinstance(a, VIter) and isinstance(b, VIter) and a.kind == "slice" and b.kind == "slice" and a.pos == b.pos:
-        return [(st, VIter("zip", a.src.len, a.pos, (a.src, b.src)))]
+        # zip stops with the shorter side
+        if eng.ent(st, c_le(a.src.len, b.src.len)):
+            n = a.src.len
+        elif eng.ent(st, c_le(b.src.len, a.src.len)):
+            n = b.src.len
+        else:
+            return None
+        return [(st, VIter("zip", n, a.pos, (a.src, b.src)))]
     return None
 
 
